@@ -204,7 +204,7 @@ Definition bash_conv : converter bstate atom :=
        else ([ALit []; ALit []; ALit (bs "0")], add_line (LPipeline cs) s))
     (* input *) (fun prompt _ s =>
        let '(h, s1) := next_helper s in
-       (ARef (var_name s1 h false), add_line (LRead prompt h) s1))
+       (ARef (var_name s1 h false), add_line (LRead prompt (var_name s1 h false)) s1))
     (* copy *) (fun dst src global s =>
        let d := var_name s dst global in
        let s1 := set_flags true true false (add_line (LSch d src) s) in
